@@ -247,7 +247,7 @@ func (e *Enc) execBuiltin(fr *Frame, b *ssa.Builtin, c *ssa.CallCommon, instr ss
 			e.assume(fmt.Sprintf("(forall ((i Int)) (! (=> (or (< i (s_off %s)) (>= i (+ (s_off %s) %s))) (= (select %s i) (select (select %s (s_arr %s)) i))) :pattern ((select %s i))))", dst, dst, n, na, old, dst, na))
 			if args[1].S == "Slice" {
 				src := args[1].T
-				e.assume(fmt.Sprintf("(forall ((i Int)) (! (=> (and (<= 0 i) (< i %s)) (= (select %s (sidx (s_off %s) i)) (select (select %s (s_arr %s)) (sidx (s_off %s) i)))) :pattern ((select %s (sidx (s_off %s) i))))))", n, na, dst, old, src, src, na, dst))
+				e.assume(fmt.Sprintf("(forall ((i Int)) (! (=> (and (<= 0 i) (< i %s)) (= (select %s (sidx (s_off %s) i)) (select (select %s (s_arr %s)) (sidx (s_off %s) i)))) :pattern ((select %s (sidx (s_off %s) i)))))", n, na, dst, old, src, src, na, dst))
 			}
 			e.set(cur.st, comp, ite(eq("(s_arr "+dst+")", "nil"), old, store(old, "(s_arr "+dst+")", na)))
 			return Val{T: n, S: "Int"}
